@@ -95,6 +95,9 @@ def extract(config="default", repo=None, tag=None):
 
 def extract_fixture():
     """positive controls: tiny crate analysed by the same driver"""
+    pre = os.environ.get('VERIF_FIXTURE_FACTS')
+    if pre and os.path.exists(pre):      # a parent process extracted it a moment ago (parallel self-test workers)
+        return pre
     if not os.path.exists(DRIVER):
         build_driver()
     target = os.path.join(CACHE, "target-fixture")
